@@ -31,11 +31,16 @@ type gated struct {
 	msgs    []sdk.Msg
 	release chan gatedResult
 	seq     int
+	addr    string       // query: address asked about
+	denom   string       // query: denomination asked about
+	ev      pubsub.Event // pub: the event being published
+	hookAt  int          // number of hook events emitted when the call reached the fake
 }
 
 type gatedResult struct {
-	status *ctypes.LeaseStatus
-	err    error
+	status  *ctypes.LeaseStatus
+	err     error
+	balance int64 // query: the balance to report
 }
 
 // ctxState reports whether the call's context is cancelled; when the loop is known to have left its select, the
@@ -68,6 +73,7 @@ func (c *calls) enter(g *gated) gatedResult {
 	c.h.mu.Lock()
 	c.n++
 	g.seq = c.n
+	g.hookAt = len(c.h.hooks)
 	c.started = append(c.started, g)
 	c.pending = append(c.pending, g)
 	c.h.mu.Unlock()
